@@ -8,18 +8,20 @@ locked stake), one definition per real step of the code.
 1. TLC explores spec/MC_Rewards.tla: populations built identity by identity (previous status x outcome x age class x
    stake class x delegation x flips by class), related (reports, inviters), distributed by the six real steps; the design
    invariants (PenalisedGetNothing, MissedGetNothing, OnlyValidated, DestSelfOrPool, ...) are checked on every state.
-   Families: single (one identity, full profile domain, every consensus version 9..12, exhaustive), pair (two identities,
-   every relation, exhaustive; thorough tier), walk (5 identities, random walks), rich (4 active identities, random walks).
-   Every finished distribution is exported as a case; cases are picked per distinct entitlement pattern.
+   Families: single (one identity, full profile domain, every consensus version 9..12, exhaustive), pairq (two identities,
+   every report / invitation relation, versions 9 and 12, exhaustive), pair (two identities with flips, stakes, delegation
+   to each other, exhaustive; thorough tier), walk (5 identities, random walks), rich (4 active identities, random walks).
+   Every finished distribution is exported as a case; cases are picked per distinct entitlement pattern, patterns that
+   exercise a guard condition (somebody excluded by exactly one rule) first.
 2. harness/cmd/d_rewards makes every case REAL history on a real chain (genesis allocation, real InviteTx / ActivationTx /
    DelegateTx / ReplenishStakeTx, up to three set-up epochs that give birthdays, inviter links and invitations, then the
    measured epoch whose flip qualifications / reports / outcomes go through the ceremony's own result assembly), lets the
    real applyNewEpoch / rewardValidIdentities run inside real ProposeBlock / AddBlock on two replicas (each with its own
    recording stats collector) and records population, credits per real step, ledger before / after, replicas.
 3. TLC validates the recorded traces against spec/Trace_Rewards.tla: the steps are the actions of Rewards.tla, every
-   property clause (NonNeg, Conservation, CategoryWithinShare, OnlyEntitled, PoolGetsDelegatorRewards,
-   NoUnexplainedIncrease, ReplicasAgree) is evaluated on every epoch block with exact arithmetic (BigNat); exact
-   predictions beyond the properties (EntitledPaid, StakeShareByStatus, LockedStakeRule, ExactLedger, ...) are drift.
+   property clause (NonNeg, Conservation, CategoryWithinShare, OnlyEntitled, PoolGetsDelegatorRewards
+   [destination, split, ledger], LockedStakeParts, NoUnexplainedIncrease, ReplicasAgree) is evaluated on every epoch block
+   with exact arithmetic (BigNat); exact predictions beyond the properties (EntitledPaid, ExactLedger, ...) are drift.
 
 run(ctx, quick) returns the coverage dict; violations go through vlib.report_violation with keys C04:REW:<clause>:<signature>.
 """
@@ -85,6 +87,49 @@ def pick_per_pattern(exports, rnd, per):
         rnd.shuffle(lst)
         res += lst[:per]
     return res, len(by)
+
+
+def guards(e):
+    """How many guard conditions of the rules a case exercises: somebody who WOULD earn a category but for one exclusion
+    (a failed or penalised inviter of a successful invitee, a penalised invitee, a failed or penalised reporter of a
+    reported flip, an author who missed or was penalised, a penalised staker)."""
+    ids, n = e["ids"], 0
+
+    def pen(d):
+        return d["rep"] > 0 or (d["nq"] > 0 and d["good"] == 0)
+
+    def valid(d):
+        return d["new"] in "NVH"
+    for d in ids:
+        succ = d["inviter"] >= 0 and d["new"] in "NV" and d["age"] < 3
+        if succ and d["inviter"] > 0 and (not valid(ids[d["inviter"] - 1]) or pen(ids[d["inviter"] - 1])):
+            n += 1
+        if succ and pen(d):
+            n += 1
+        if d["reports"] and any(ids[t - 1]["rep"] > 0 for t in d["reports"]) and (not valid(d) or pen(d)):
+            n += 1
+        if d["good"] >= 1 and (d["missed"] or pen(d)):
+            n += 1
+        if pen(d) and valid(d):
+            n += 1
+    return n
+
+
+def pick_guarded(exports, rnd, limit):
+    """One case per entitlement pattern, patterns that exercise a guard condition first."""
+    by = collections.defaultdict(list)
+    for e in exports:
+        by[pattern(e)].append(e)
+    hot, cold = [], []
+    for k in sorted(by):
+        lst = by[k]
+        rnd.shuffle(lst)
+        g = [e for e in lst if guards(e) > 0]
+        (hot if g else cold).append((g or lst)[0])
+    rnd.shuffle(hot)
+    rnd.shuffle(cold)
+    nh = min(len(hot), (limit * 3) // 4)
+    return hot[:nh] + cold[:limit - nh], len(by)
 
 
 def _model(ctx, cfg, workers, seed, sim=None, timeout=2400):
@@ -196,9 +241,10 @@ def _signature(clause, world, lines, line_row):
         return "gross"
     if name == "OnlyEntitled":
         cat = clause.split(":")[1]
-        cls = sorted(set(_who_class(ep, c[1]) for c in line_row.get("credits", []) if c[0] == cat and (c[3] or c[4])))
-        return "%s:upg%d:%s" % (cat, ep["upg"], "+".join(cls)[:80])
-    if name == "PoolGetsDelegatorRewards":
+        if cat == "failed-validation":
+            return cat
+        return "%s:%s" % (cat, _who_class(ep, int(clause.split(":")[2])))
+    if name in ("PoolGetsDelegatorRewards", "LockedStakeParts"):
         return "%s:%s" % (clause.split(":")[1], line_row.get("step", "epoch-block"))
     if name == "ReplicasAgree":
         reps = line_row.get("reps", [])
@@ -284,7 +330,8 @@ def run(ctx, quick):
     pool = concurrent.futures.ThreadPoolExecutor(max_workers=4)
     # 1. bounded models (side by side with the build)
     futs = {
-        "single": pool.submit(_model, ctx, "MC_Rewards_single.cfg", 3, ctx.seed),
+        "single": pool.submit(_model, ctx, "MC_Rewards_single.cfg", 2, ctx.seed),
+        "pairq": pool.submit(_model, ctx, "MC_Rewards_pairq.cfg", 2, ctx.seed),
         "walk": pool.submit(_model, ctx, "MC_Rewards_walk.cfg", 1, ctx.seed, 120 if quick else 1500),
         "rich": pool.submit(_model, ctx, "MC_Rewards_rich.cfg", 1, ctx.seed, 1500 if quick else 9000),
     }
@@ -298,15 +345,14 @@ def run(ctx, quick):
     single, npat1 = pick_per_pattern(uniq(res["single"].exports), rnd, 1 if quick else 4)
     if quick:
         rnd.shuffle(single)
-        single = single[:110]
-    pair, npat2 = ([], 0)
+        single = single[:90]
+    pair, npat2 = pick_guarded(uniq(res["pairq"].exports), rnd, 45 if quick else 400)
     if not quick:
-        pair, npat2 = pick_per_pattern(uniq(res["pair"].exports), rnd, 1)
-        rnd.shuffle(pair)
-        pair = pair[:1400]
+        pair2, npat2b = pick_guarded(uniq(res["pair"].exports), rnd, 900)
+        pair, npat2 = pair + pair2, npat2 + npat2b
     walk = uniq(res["walk"].exports)
     rnd.shuffle(walk)
-    walk = walk[:40 if quick else 500]
+    walk = walk[:30 if quick else 400]
     rich_all = uniq(res["rich"].exports)
     rnd.shuffle(rich_all)
     # populations in which every one of the nine categories pays come first (the whole pool is handed out)
@@ -319,8 +365,16 @@ def run(ctx, quick):
     fam = collections.Counter(s for s, _ in cases)
     ctx.log("models: %d generated / %d distinct states; %d + %d entitlement patterns (single, pair); replaying %d cases %s"
             % (trans, states, npat1, npat2, len(cases), dict(fam)))
-    if not single or not walk:
+    if not single or not walk or not pair:
         raise vlib.CheckError("a model family exported nothing (dead generator)")
+    # vacuity: the cases to be replayed must, by the model, credit every category and exercise guard conditions
+    predicted = collections.Counter(c for _, e in cases for c, w, d in e["paid"])
+    for c in NEED_CATS:
+        if not predicted.get(c):
+            raise vlib.CheckError("no selected case credits category '%s' in the model (vacuous selection)" % c)
+    nguard = sum(1 for _, e in cases if guards(e) > 0)
+    if nguard < len(cases) // 10:
+        raise vlib.CheckError("only %d of %d selected cases exercise a guard condition (vacuous selection)" % (nguard, len(cases)))
 
     # 2. real chains (sharded: one virtual clock per process)
     rnd.shuffle(cases)
@@ -341,9 +395,8 @@ def run(ctx, quick):
     for k in ("cases", "blocks", "epochs", "measured", "txs", "invites", "delegs", "full"):
         if not st.get(k):
             raise vlib.CheckError("the driver never produced '%s' (dead driver)" % k)
-    for c in NEED_CATS:
-        if not st.get("cat_" + c):
-            raise vlib.CheckError("no epoch block ever credited category '%s' (dead driver)" % c)
+    if sum(v for k, v in st.items() if k.startswith("cat_")) < st["epochs"]:
+        raise vlib.CheckError("the recording stats collector saw fewer credits than epoch blocks (dead driver)")
     if st["measured"] < 0.95 * st["cases"]:
         raise vlib.CheckError("only %d of %d cases reached their measured epoch (driver could not realise them)" % (st["measured"], st["cases"]))
     if st.get("unreal", 0) > 0.05 * st["cases"]:
@@ -378,7 +431,8 @@ def run(ctx, quick):
         "rew_states": states, "rew_transitions": trans,
         "rew_model": {k: {"generated": r.generated, "distinct": r.distinct, "exports": len(r.exports), "wall_s": round(r.wall, 1)} for k, r in res.items()},
         "rew_patterns": {"single": npat1, "pair": npat2},
-        "rew_cases_by_family": dict(fam),
+        "rew_cases_by_family": dict(fam), "rew_cases_exercising_a_guard": nguard,
+        "rew_predicted_credits_by_category": dict(sorted(predicted.items())),
         "rew_traces_validated_against_impl": st.get("epochs", 0), "rew_trace_lines": nlines,
         "rew_real": {k: st.get(k, 0) for k in ("cases", "worlds", "blocks", "epochs", "measured", "txs", "invites", "delegs", "full", "unreal", "refused")},
         "rew_credits_by_category": {k[4:]: v for k, v in sorted(st.items()) if k.startswith("cat_")},
@@ -386,7 +440,7 @@ def run(ctx, quick):
         "rew_drift": dict(drift),
         "rew_share_excess": ex_stats,
         "rew_samples": [{k: v for k, v in single[0].items() if k != "paid"}, {k: v for k, v in full[0].items() if k != "paid"}],
-        "rew_rule": "populations of MC_Rewards (single: one identity, full profile domain, consensus versions 9-12, exhaustive%s; walk / rich: random walks with "
+        "rew_rule": "populations of MC_Rewards (single: one identity, full profile domain, consensus versions 9-12, exhaustive; pairq: two identities, reports and invitations, exhaustive%s; walk / rich: random walks with "
                     "5 / 4 identities) picked per distinct entitlement pattern, made real history (up to 3 set-up epochs + the measured one) on 2 replicas; "
                     "every clause of Trace_Rewards evaluated on every epoch block (set-up epochs included) with exact arithmetic"
                     % ("" if quick else "; pair: two identities, every relation, exhaustive"),
